@@ -308,6 +308,11 @@ def run(ctx):
         d3 = os.path.join(tmp, "swanfile")
         os.makedirs(d3)
         swanfile_ext.stage(ctx, d3)
+        # ---- read_swans as a loop over files and cycles (Swans.tla): every scenario of file-name order x cycles x site-files
+        from harness import swans_ext
+        d4 = os.path.join(tmp, "swans")
+        os.makedirs(d4)
+        swans_ext.stage(ctx, d4)
     finally:
         shutil.rmtree(tmp, ignore_errors=True)
     # vendor samples decoded independently
